@@ -123,7 +123,7 @@ impl Property for C04 {
         let dev_kind = crate::exec::gen_dev_kind(src);
         let (caps, disc) = gen_caps_disc(src);
         // 1 run in 256: display-scale sizes and coordinates (up to 300, stroke widths up to 140)
-        let huge = src.draw(256) == 255;
+        let huge = if crate::prop::deep() { src.draw(64) == 63 } else { src.draw(256) == 255 };
         let large = src.draw(5) < 3;
         let bbox = if huge {
             [-2000, -2000, 4000, 4000]
